@@ -70,6 +70,21 @@ func Build(xpath string) (Grammar, error) {
 		return Grammar{}, fmt.Errorf(errBuf.String())
 	}
 
+	// A Number is a single token in XPath 1.0. The grammar assembles it from
+	// digits and "." tokens, so white space between those must be rejected here.
+	for i := 0; i+1 < len(lex.Tokens); i++ {
+		a, b := lex.Tokens[i], lex.Tokens[i+1]
+
+		if a.Rext() == b.Lext() {
+			continue
+		}
+
+		if (a.TypeID() == "digits" && b.TypeID() == ".") || (a.TypeID() == "." && b.TypeID() == "digits") {
+			line, col := b.GetLineColumn()
+			return Grammar{}, fmt.Errorf("Error on line %d, column %d. White space inside a number", line, col)
+		}
+	}
+
 	roots := parse.GetRoots()
 
 	if len(roots) == 0 {
